@@ -38,3 +38,16 @@ Lemma concise_examples :
   ∧ concise_text 2 "5678" = "56.78"%string ∧ concise_text 3 "10" = "0.010"%string
   ∧ concise_text 0 "4" = "4"%string ∧ concise_text 2 "100" = "1.00"%string.
 Proof. vm_compute. repeat split. Qed.
+
+(** * Integer literals denote their exact decimal value, whatever their size *)
+Lemma dval_snoc_digit l a :
+  is_digit a = true → dval (l ++ [a]) = (10 * dval l + digit_val a)%N.
+Proof. intros H. unfold dval. rewrite fold_left_app. simpl. by rewrite H. Qed.
+Lemma dval_snoc_other l a : is_digit a = false → dval (l ++ [a]) = dval l.
+Proof. intros H. unfold dval. rewrite fold_left_app. simpl. by rewrite H. Qed.
+Lemma lit_int_value_examples :
+  lit_int_value "9007199254740993" = 9007199254740993%N
+  ∧ lit_int_value "1700000000123456789" = 1700000000123456789%N
+  ∧ lit_int_value "340282366920938463463374607431768211457" = 340282366920938463463374607431768211457%N
+  ∧ lit_int_value "1_000" = 1000%N ∧ is_int_lit "9007199254740993" = true.
+Proof. vm_compute. repeat split. Qed.
